@@ -235,11 +235,8 @@ def harnesses(tier, seed):
 def run(tier, seed):
     errs, cov = scan_sites()
     hs = harnesses(tier, seed)
-    try:
-        from .. import step
-        hs = hs + step.harnesses_for('C02', tier, seed)
-    except ImportError:
-        pass
+    from .. import step, outer, runstart
+    hs = hs + step.harnesses_for('C02', tier, seed) + outer.outer_harnesses(tier, seed, 'C02') + runstart.start_harnesses(tier, seed, 'C02')
     return run_property(
         'C02', hs, tier, seed, extra_errors=errs, extra_cov={'call_site_scan': cov},
         explanation="Symbolic execution (z3, linear integer arithmetic + UF) of the real evaluate_objective, the x0-sampling block "
